@@ -167,11 +167,14 @@ StoNeeded(T, I, t) ==
 StoFreed(T, I, t) ==
     Scale(AddAll([j \in {x \in StoJobs(T, t) : I.job[x].ds < 0} |-> DataSX(T, I, j)],
                  {x \in StoJobs(T, t) : I.job[x].ds < 0}), I.st[t].repl)
+(* data is kept for the storage duration rounded UP to whole hours (math.ceil of the duration in hours); a storage record *)
+(* carries the duration in minutes (durmin) when it comes from a recorded system, in whole hours (durh) in MC_Numeric    *)
+StoDurH(s) == IF "durmin" \in DOMAIN s THEN (s.durmin + 59) \div 60 ELSE s.durh
 (* automatic dumps after the storage duration: minus the need, shifted, cut at the last hour of the need *)
 StoDumps(T, I, t) ==
     LET need == StoNeeded(T, I, t) IN
     IF IsEmpty(need) THEN EMPTY
-    ELSE LET sh == Shift(need, I.st[t].durh)
+    ELSE LET sh == Shift(need, StoDurH(I.st[t]))
              last == MaxOf(DOMAIN need)
              first == MinOf(DOMAIN need)
              kept == {x \in DOMAIN sh : x <= last}
